@@ -74,10 +74,11 @@ func (k Keeper) lock(ctx context.Context, target common.Address, coins sdktypes.
 
 			if token.Weight > 0 {
 				power := math.NewIntFromUint64(token.Weight).Mul(coin.Amount).Quo(types.PowerReduction)
-				if !power.IsUint64() {
+				newPower, ok := types.AddPower(validator.Power, power)
+				if !ok {
 					return errorsmod.Wrapf(sdkerrors.ErrLogic, "power too large: %s", power)
 				}
-				validator.Power += power.Uint64()
+				validator.Power = newPower
 			}
 
 			if err := k.Locking.Set(sdkctx,
@@ -117,10 +118,11 @@ func (k Keeper) lock(ctx context.Context, target common.Address, coins sdktypes.
 
 				if token.Weight > 0 {
 					power := math.NewIntFromUint64(token.Weight).Mul(coin.Amount).Quo(types.PowerReduction)
-					if !power.IsUint64() {
+					newPower, ok := types.AddPower(validator.Power, power)
+					if !ok {
 						return errorsmod.Wrapf(sdkerrors.ErrLogic, "power too large: %s", power)
 					}
-					validator.Power += power.Uint64()
+					validator.Power = newPower
 				}
 			}
 
